@@ -65,7 +65,9 @@ type c15Txn struct {
 	types    map[string]operation.Type
 }
 
-type stubProvider struct{ ops []*operation.AnchoredOperation }
+type stubProvider struct {
+	ops []*operation.AnchoredOperation
+}
 
 func (s *stubProvider) GetTxnOperations(*txn.SidetreeTxn) ([]*operation.AnchoredOperation, error) {
 	out := make([]*operation.AnchoredOperation, len(s.ops))
